@@ -89,6 +89,7 @@ PROPS = {
         "kind": "c01,std",
         "module": "Props.C01",
         "namespace": "Jl.C01",
+        "extra_theorem_files": [("Proofs.JsonQuote", "Jl.JsonQuote"), ("Proofs.JsonPrint", "Jl.JsonPrint")],
         "rule": ("one input line through importer (template ti) and exporter (template to) as jl does, and Go values handed to Export "
                  "through the API (maps, slices, rows): random templates (0-5 columns, 9 formats x 18 raw types, hidden anywhere, "
                  "sub-rows to depth 3) with keys from every class the writer treats differently (controls, quotes, backslash, DEL, C1, "
@@ -137,6 +138,7 @@ PROPS = {
         "kind": "c02",
         "module": "Props.C02",
         "namespace": "Jl.C02",
+        "extra_theorem_files": [("Proofs.JsonPrint", "Jl.JsonPrint")],
         "rule": ("grammar-directed RFC 8259 objects: any member order, depth <= 4 random plus fixed depth 64, arrays of objects, empty "
                  "containers, every escape spelling (raw UTF-8, \\uXXXX, surrogate pairs, all short escapes, escaped and raw U+2028, DEL), "
                  "number spellings (-0, 1E+2, 0.10, 30-digit integers, 1e-400, 1e400), arbitrary insignificant whitespace; out-of-domain "
